@@ -84,6 +84,8 @@ impl Matcher for SingleExecMatcher {
                 }
             }
         }
+        #[cfg(feature = "verif_hooks")]
+        let mut command = crate::verif_hooks::SimCommand::new(command);
         match command.status() {
             Ok(status) => status.success(),
             Err(e) => {
@@ -129,6 +131,8 @@ impl MultiExecMatcher {
     }
 
     fn run_command(&self, command: &mut argmax::Command, matcher_io: &mut MatcherIO) {
+        #[cfg(feature = "verif_hooks")]
+        let command = &mut crate::verif_hooks::SimCommand::new(command);
         match command.status() {
             Ok(status) => {
                 if !status.success() {
